@@ -5,7 +5,7 @@ COMMON_ASSUMPTIONS = [
     "go/packages + go/ssa construct a faithful SSA form of /repo's current working tree (rebuilt on every run)",
     "gosym interpreter and term simplifier (mitigated: every counterexample and a sample of passing path witnesses are replayed against the natively compiled code; observations must agree)",
     "stdlib leaves with symbolic arguments run through the Go models in /verif/models (validated natively by `vcheck --setup`); stdlib calls with concrete arguments run natively",
-    "SMT solver z3 4.8.12; any unknown/error/timeout answer is counted as inconclusive, never as unsat",
+    "SMT solver z3 5.1.0 (z3-new) by default, cross-checked against z3 4.8.12 and cvc5 by `vcheck --diff-solvers`; any unknown/error/timeout answer is counted as inconclusive, never as unsat",
     "package initialisers are executed for the soy packages and `errors` only; log.* are no-ops; sync.Mutex is a no-op under the engine's one-at-a-time goroutine scheduler",
 ]
 
